@@ -120,6 +120,33 @@ def nominal(low, n):
     return None
 
 
+def cut_at_thrust(g, onodes):
+    """the attitude set-point is a function of the demanded thrust vector T and the heading only: the three nodes T_i are
+    read off the graph of nT = norm_2(T) = sqrt(T0^2 + T1^2 + T2^2) and lowered as free variables, so the so(3) obligations
+    of the degenerate branches are proved for EVERY thrust vector (not only those the outer loop can produce)"""
+    n = onodes["nT"][0][0]
+    if n is None or g.op(n) != "SQRT":
+        return {}
+    leaves, stack = [], [g.args(n)[0]]
+    while stack:
+        k = stack.pop()
+        if g.op(k) == "ADD":
+            stack.extend(g.args(k))
+        else:
+            leaves.append(k)
+    comps = []
+    for k in leaves:
+        if g.op(k) == "SQ":
+            comps.append(g.args(k)[0])
+        elif g.op(k) == "MUL" and g.args(k)[0] == g.args(k)[1]:
+            comps.append(g.args(k)[0])
+        else:
+            return {}
+    if len(comps) != 3:
+        return {}
+    return {c: f"Tcut{i}" for i, c in enumerate(sorted(comps))}
+
+
 def position_control_traces():
     f = rdd2.derive_position_control  # re-derived inside build with the stub active
 
@@ -151,7 +178,7 @@ def position_control_traces():
     cand2 = dict(cand, at_w=[[0.0], [0.0], [0.0]])
     cand3 = dict(cand, at_w=[[100.0], [0.0], [0.0]])
     T.append(_Trace("C14.position_control.degenerate", ins, b, setpoint_obs()[1:3], functions=fns, decide=None, lemmas=lem, budget_s=900, max_paths=512,
-                    witness_candidates=[cand, cand2, cand3],
+                    witness_candidates=[cand, cand2, cand3], cut=cut_at_thrust, smt_timeout=120,
                     note="all branches incl. near-zero thrust and thrust parallel to the heading (documented fallbacks)"))
     return T
 
@@ -199,7 +226,7 @@ def se23_position_control_traces():
     return [
         _Trace("C14.se23_position_control.nominal", ins, b, setpoint_obs(), functions=fns, decide=nominal, lemmas=lem, budget_s=600, max_paths=256),
         _Trace("C14.se23_position_control.degenerate", ins, b, setpoint_obs()[1:3], functions=fns, decide=None, lemmas=lem, budget_s=900, max_paths=512,
-               witness_candidates=[cand, cand3]),
+               witness_candidates=[cand, cand3], cut=cut_at_thrust, smt_timeout=120),
     ]
 
 
